@@ -203,8 +203,19 @@ func (e *env) sub(v string) string {
 	return v
 }
 
-// newEnv builds the session. cfg "nolisten": no IBB listener is installed.
+// newEnv builds the session. cfg is the configuration of the handler table (Cfgs of
+// tla/PeerInput.tla): "listen" = every optional callback of every handler is set and an IBB
+// listener is installed; "zero" = every handler in its default (zero value) configuration,
+// ie. without the callbacks the library treats as optional (the callbacks a handler cannot
+// work without - roster Push, carbons F, the function of disco.HandleCaps - stay); "nolisten"
+// = as "listen" without an IBB listener.
 func newEnv(cfg string) (*env, error) {
+	switch cfg {
+	case "listen", "zero", "nolisten":
+	default:
+		return nil, fmt.Errorf("driver: unknown handler configuration %q", cfg)
+	}
+	zero := cfg == "zero"
 	e := &env{conn: vt.NewConn()}
 	e.cond = sync.NewCond(&e.mu)
 	e.conn.FeedString(streamHeader(stanza.NSClient))
@@ -216,20 +227,48 @@ func newEnv(cfg string) (*env, error) {
 	e.conn.React = e.react
 
 	e.ibbH = &ibb.Handler{}
-	e.histH = history.NewHandler(mux.MessageHandlerFunc(func(m stanza.Message, r xmlstream.TokenReadEncoder) error {
-		return drain(r)
-	}))
-	e.rcptH = &receipts.Handler{Unhandled: func(string) {}}
-	e.mucC = &muc.Client{
-		HandleInvite:       func(muc.Invitation) {},
-		HandleUserPresence: func(stanza.Presence, muc.Item) {},
+	var (
+		directInvite func(muc.Invitation)
+		blockH       blocklist.Handler
+		timeH        xtime.Handler
+		binH         bin.Handler
+	)
+	if zero {
+		e.histH = history.NewHandler(nil)
+		e.rcptH = &receipts.Handler{}
+		e.mucC = &muc.Client{}
+	} else {
+		e.histH = history.NewHandler(mux.MessageHandlerFunc(func(m stanza.Message, r xmlstream.TokenReadEncoder) error {
+			return drain(r)
+		}))
+		e.rcptH = &receipts.Handler{Unhandled: func(string) {}}
+		e.mucC = &muc.Client{
+			HandleInvite:       func(muc.Invitation) {},
+			HandleUserPresence: func(stanza.Presence, muc.Item) {},
+		}
+		directInvite = func(muc.Invitation) {}
+		blockH = blocklist.Handler{
+			Block:      func(blocklist.Item) {},
+			Unblock:    func(jid.JID) {},
+			UnblockAll: func() {},
+			List: func(c chan<- jid.JID) {
+				c <- peerJID
+			},
+		}
+		timeH = xtime.Handler{TimeFunc: func() time.Time { return time.Unix(1600000000, 0).UTC() }}
+		binH = bin.Handler{Get: func(cid string) (*bin.Data, error) {
+			if cid == "" {
+				return nil, stanza.Error{Type: stanza.Cancel, Condition: stanza.ItemNotFound}
+			}
+			return &bin.Data{CID: cid, Type: "text/plain", Data: []byte("x")}, nil
+		}}
 	}
 	e.m = mux.New(stanza.NSClient,
 		ibb.Handle(e.ibbH),
 		history.Handle(e.histH),
 		receipts.Handle(e.rcptH),
 		muc.HandleClient(e.mucC),
-		muc.HandleInvite(func(muc.Invitation) {}),
+		muc.HandleInvite(directInvite),
 		disco.Handle(),
 		disco.HandleCaps(func(stanza.Presence, disco.Caps) {}),
 		roster.Handle(roster.Handler{Push: func(ver string, item roster.Item) error {
@@ -238,14 +277,7 @@ func newEnv(cfg string) (*env, error) {
 			}
 			return nil
 		}}),
-		blocklist.Handle(blocklist.Handler{
-			Block:      func(blocklist.Item) {},
-			Unblock:    func(jid.JID) {},
-			UnblockAll: func() {},
-			List: func(c chan<- jid.JID) {
-				c <- peerJID
-			},
-		}),
+		blocklist.Handle(blockH),
 		carbons.Handle(carbons.Handler{F: func(m stanza.Message, sent bool, inner xml.TokenReader) error {
 			// what an application does with a carbon copy: unwrap the forwarded stanza
 			var del delay.Delay
@@ -256,15 +288,10 @@ func newEnv(cfg string) (*env, error) {
 			drain(r)
 			return nil
 		}}),
-		xtime.Handle(xtime.Handler{TimeFunc: func() time.Time { return time.Unix(1600000000, 0).UTC() }}),
+		xtime.Handle(timeH),
 		version.Handle(version.Query{Name: "vt", Version: "1", OS: "none"}),
 		ping.Handle(),
-		bin.Handle(bin.Handler{Get: func(cid string) (*bin.Data, error) {
-			if cid == "" {
-				return nil, stanza.Error{Type: stanza.Cancel, Condition: stanza.ItemNotFound}
-			}
-			return &bin.Data{CID: cid, Type: "text/plain", Data: []byte("x")}, nil
-		}}),
+		bin.Handle(binH),
 	)
 	if cfg != "nolisten" {
 		e.lis = e.ibbH.Listen(s)
